@@ -584,8 +584,17 @@ def returndata_cases():
     return out
 
 
+def branch_ownership_ref():
+    """each frame observes the right code and own address also after a fork inside the resolution of a symbolic call target: the sibling
+    paths own their alias tables (C02's unit)"""
+    from contracts import c02
+    from contracts.common import rewrap
+
+    return rewrap(PROP, c02.path_cases(), "fork-owns-its-tables", lambda c: "create_branch" in c.unit)
+
+
 def build_cases(tier="quick"):
-    return returndata_cases() + message_cases() + callback_cases() + funds_cases() + static_cases() + create_cases()
+    return branch_ownership_ref() + returndata_cases() + message_cases() + callback_cases() + funds_cases() + static_cases() + create_cases()
 
 
 ASSUMPTIONS = [
